@@ -310,7 +310,26 @@ def rule_known_values(ctx):
                     cc = cmp_canon(c)
                     if cc and cc[1] in ("in", "not in"):
                         filt.append((unparse(n.targets[0]), cc[1], cc[2]))
-    okf = sorted(filt) == [("next_known", "in", "known_values"), ("next_unknown", "not in", "known_values")]
+    # the same partition written as one loop: `for value in next_values: if ...: next_known.append(value) else: next_unknown.append(value)`
+    sd = single_defs(fi.node)
+    flip = {"in": "not in", "not in": "in"}
+    for c in calls(fi, "append"):
+        recv = unparse(c.func.value)
+        if recv not in ("next_unknown", "next_known") or not cfg.enclosing_loops(c):
+            continue
+        for t, pol in cfg.path_conditions(c):
+            if isinstance(t, ast.Name) and t.id in sd:
+                t = sd[t.id]  # already_known = value in known_values
+            while isinstance(t, ast.UnaryOp) and isinstance(t.op, ast.Not):
+                t, pol = t.operand, not pol
+            if isinstance(t, ast.BoolOp) and not ((isinstance(t.op, ast.And) and pol) or (isinstance(t.op, ast.Or) and not pol)):
+                continue  # a failed conjunction says nothing about its members
+            for cj in (conjuncts(t) if pol else (t.values if isinstance(t, ast.BoolOp) else [t])):
+                cc = cmp_canon(cj)
+                if cc and cc[1] in ("in", "not in"):
+                    filt.append((recv, cc[1] if pol else flip[cc[1]], cc[2]))
+    filt = sorted(set(filt))
+    okf = filt == [("next_known", "in", "known_values"), ("next_unknown", "not in", "known_values")]
     stored = any(isinstance(n, ast.Assign) and unparse(n.targets[0]) == "self.known_values" and unparse(n.value) == "known_values" for n in walk_no_nested(fi.node))
     ctx.ob(R, construct(fi, "members of a level are validated against the cumulated values of all previous levels"), bool(okk and okf and stored), loc(fi, outer[0] if outer else None),
            "" if (okk and okf and stored) else f"membership filters: {filt}; a hierarchy whose group skips a level would be refused (or accepted with unknown members)")
